@@ -12,7 +12,7 @@ import (
 )
 
 func (sa *Safe) setState(dst, src *State) {
-	dst.itv, dst.nils, dst.facts, dst.mem, dst.guards, dst.dead = src.itv, src.nils, src.facts, src.mem, src.guards, src.dead
+	dst.itv, dst.nils, dst.facts, dst.mem, dst.guards, dst.dead, dst.logs = src.itv, src.nils, src.facts, src.mem, src.guards, src.dead, src.logs
 }
 
 func (sa *Safe) bindResult(fr *frame, x *ssa.Call, vals []AVal) {
@@ -355,8 +355,13 @@ func (sa *Safe) stdlib(fr *frame, st *State, x *ssa.Call, callee *ssa.Function, 
 		o := sa.mObj(fr, desc, false)
 		v := AVal{Kind: avPtr, Obj: o, NonNil: true, Type: sig.Results().At(0).Type()}
 		sa.havoc(st, o, "")
+		delete(st.logs, o)
 		if args[0].Len != nil {
 			sa.setBufLen(st, v, args[0].Len)
+			if c, ok := constOf(st, args[0].Len); ok && c == 0 {
+				st.logs[o] = []logEntry{}
+				sa.noteBuffer(fr, o)
+			}
 		}
 		return one(v)
 	case "(*bytes.Buffer).Len", "(*bytes.Reader).Len":
@@ -404,6 +409,7 @@ func (sa *Safe) stdlib(fr *frame, st *State, x *ssa.Call, callee *ssa.Function, 
 			} else {
 				sa.setBufLen(st, b, nil)
 			}
+			st.appendLog(b.Obj, logEntry{Size: args[1].Len, Desc: exprText(x.Call.Args[1]), Pos: int(x.Pos())})
 		}
 		return callResult{st: st, vals: []AVal{sa.boundedAtom(fr, st, types.Typ[types.Int], desc, Itv{0, posInf}), sa.errResult(fr, st, desc+".err")}}
 	case "(*bytes.Buffer).WriteByte":
@@ -412,6 +418,7 @@ func (sa *Safe) stdlib(fr *frame, st *State, x *ssa.Call, callee *ssa.Function, 
 			if l := sa.bufLen(fr, st, b); l != nil {
 				sa.setBufLen(st, b, l.addConst(1))
 			}
+			st.appendLog(b.Obj, logEntry{Size: linConst(1), Val: args[1].Lin, Desc: exprText(x.Call.Args[1]), Pos: int(x.Pos())})
 		}
 		return one(sa.errResult(fr, st, desc+".err"))
 	case "(*bytes.Buffer).ReadFrom":
@@ -419,9 +426,11 @@ func (sa *Safe) stdlib(fr *frame, st *State, x *ssa.Call, callee *ssa.Function, 
 		if b, ok := bufPtr(args[0]); ok {
 			l := sa.bufLen(fr, st, b)
 			if src, ok2 := bufPtr(args[1]); ok2 && l != nil && sa.bufLen(fr, st, src) != nil {
+				st.appendLog(b.Obj, logEntry{Size: sa.bufLen(fr, st, src), Desc: "contents of " + exprText(x.Call.Args[1]), Pos: int(x.Pos())})
 				sa.setBufLen(st, b, l.add(sa.bufLen(fr, st, src), 1))
 				sa.setBufLen(st, src, linConst(0))
 			} else {
+				st.appendLog(b.Obj, logEntry{Desc: "ReadFrom", Pos: int(x.Pos())})
 				sa.setBufLen(st, b, nil)
 			}
 		}
@@ -459,6 +468,18 @@ func (sa *Safe) stdlib(fr *frame, st *State, x *ssa.Call, callee *ssa.Function, 
 			} else {
 				sa.setBufLen(st, b, nil)
 			}
+			d := args[2]
+			if d.Kind == avIface && d.Inner != nil {
+				d = *d.Inner
+			}
+			if sz == nil {
+				sz = sa.wireSize(st, args[2], x.Call.Args[2].Type())
+			}
+			var val *Lin
+			if d.Kind == avInt {
+				val = d.Lin
+			}
+			st.appendLog(b.Obj, logEntry{Size: sz, Val: val, Desc: exprText(x.Call.Args[2]), Pos: int(x.Pos())})
 		}
 		return one(sa.errResult(fr, st, desc))
 	case "(encoding/binary.bigEndian).Uint16", "(encoding/binary.bigEndian).Uint32", "(encoding/binary.bigEndian).Uint64",
